@@ -155,7 +155,8 @@ func hasBlankIdentifier(tup *types.Tuple) bool {
 // it is blank or unnamed, or it would shadow the function parameter (f) or the error parameter (err)
 // that the generated wrappers declare themselves.
 func cannotForward(name string) bool {
-	return name == blackIdentifier || name == "" || name == "f" || name == "err"
+	// a parameter called nil would hide the nil that the wrappers return and compare with.
+	return name == blackIdentifier || name == "" || name == "f" || name == "err" || name == "nil"
 }
 
 func rename(tup *types.Tuple, prefix string) *types.Tuple {
